@@ -185,6 +185,34 @@ def run(ctx):
             elif np.max(np.abs(np.ravel(G) - (gs * A[0] + x + gc))) > (1e-9 if meth == 'complex' else 1e-4) * (1 + 2 * np.abs(A[0]).max()):
                 ctx.violation('nd_scipy.Gradient differs from the exact gradient (extra arguments forwarded?)', got=np.ravel(G).tolist(),
                               exact=(gs * A[0] + x + gc).tolist(), **rep)
+    # points strictly inside the box but very close to a face (1e-7 .. 1e-5 relative): the derivative is the one at x, not at the face
+    for it in range(ctx.budget(40, 400)):
+        n = rng.randint(1, 4)
+        W = np.array([[rng.randint(-8, 8) / 4 for _ in range(n)] for _ in range(n)]) + 2 * np.eye(n)
+        lo = np.array([rng.choice([1.0, -2.0, 0.5, 3.0, 100.0]) for _ in range(n)])
+        hi = lo + 2.0
+        x = lo + np.array([rng.choice([3e-6, 1e-7, 5e-6]) * max(1.0, abs(l_)) if rng.random() < 0.7 else 0.5 for l_ in lo])
+        if rng.random() < 0.5:
+            x = hi - (x - lo)
+        meth = rng.choice(['complex', 'complex', 'central'])
+        f = lambda t: np.exp((W @ t) / 64) * 64 + (W @ t) ** 2
+        u = W @ x
+        exact = (np.exp(u / 64) + 2 * u)[:, None] * W
+        ctx.tried(('near-face', n, meth, tuple(x[:2])))
+        rep = dict(n=n, method=meth, x=x.tolist(), bounds=[lo.tolist(), hi.tolist()], kind='nonlinear, x within 1e-5 of a face')
+        try:
+            with warnings.catch_warnings():
+                warnings.simplefilter('ignore')
+                J = nds.Jacobian(f, method=meth, bounds=(lo, hi))(x)
+        except Exception as ex:
+            ctx.violation('nd_scipy.Jacobian raised %r' % ex, **rep)
+            continue
+        tol = (1e-9 if meth == 'complex' else 3e-7) * (1 + np.abs(exact).max())
+        if np.shape(J) != (n, n) and not (n == 1 and np.shape(J) == (1,)):
+            continue
+        if np.max(np.abs(np.reshape(J, (n, n)) - exact)) > tol:
+            ctx.violation('nd_scipy.Jacobian at a point close to (not on) a face of the box differs from the exact Jacobian at that point',
+                          got=np.ravel(J).tolist(), exact=np.ravel(exact).tolist(), tolerance=tol, **rep)
     ctx.assumptions.append('everything inside scipy.optimize._numdiff.approx_derivative is external: the claim is partial by nature '
                            '(method map, forwarding, squeeze and the cs contract on affine maps are proved; the rest is explored on the real scipy)')
 
